@@ -126,6 +126,22 @@ def h_loop(g, N, T, body_name, shift):
     g.eq("final.mean", c1_.mean[phys], c2_.mean[puls])
     g.eq("final.N", c1_.nmat[np.ix_(phys, phys)], c2_.nmat[np.ix_(puls, puls)])
     g.eq("final.M", c1_.mmat[np.ix_(phys, phys)], c2_.mmat[np.ix_(puls, puls)])
+    # run 3: the real space-unrolled circuit (one mode per pulse) on T+N-1 modes
+    prog.roll()
+    prog.space_unroll(shots=1)
+    g.fact("space_unroll: one mode per pulse", prog.num_subsystems == total, detail=str(prog.num_subsystems))
+    del log[:]
+    calls[0] = 0
+    be3 = big_backend(g, base, total)
+    F.apply_cmds(prog.circuit, be3)
+    log3 = list(log)
+    g.fact("space-unrolled: same number of measurements", len(log3) == T, detail=str(len(log3)))
+    for k, ((m3, c3), (m2, c2)) in enumerate(zip(log3, log2)):
+        g.eq("space.bin%d.born.mean" % k, m3, m2)
+        g.eq("space.bin%d.born.cov" % k, c3, c2)
+    g.eq("space.final.mean", be3.circuit.mean[puls], c2_.mean[puls])
+    g.eq("space.final.N", be3.circuit.nmat[np.ix_(puls, puls)], c2_.nmat[np.ix_(puls, puls)])
+    g.eq("space.final.M", be3.circuit.mmat[np.ix_(puls, puls)], c2_.mmat[np.ix_(puls, puls)])
     # roll back: circuit and register exactly as before
     prog.roll()
     g.fact("roll restores the circuit", len(prog.circuit) == len(rolled) and all(a is b for a, b in zip(prog.circuit, rolled)))
